@@ -60,6 +60,8 @@ func (k *Keystore) HasKey(ctx context.Context, id string) (bool, error) {
 			return false, errmsg.ErrKeyNotInKeystore.Wrap(err)
 		}
 
+		storedKey = base64.StdEncoding.EncodeToString(value)
+
 		if storedKey != nil {
 			k.cache.Add(id, base64.StdEncoding.EncodeToString(value))
 		}
